@@ -57,14 +57,35 @@ theorem router_facts_gorillamux :
     routerFact "gorilla.newSrv.trim" = some "len(path) > 0 && path[len(path)-1] == '/'" := by decide +kernel
 
 /-- legacy: NewRouter ranges over two Go maps (hence the arbitrary key order of the legacy theorems), its routes have no
-    Server and FindRoute never sets one (`setSrv = false`, F-C09-8); only the document's servers are read (F-C09-9) -/
+    Server and FindRoute never sets one (`setSrv = false`, F-C09-8); only the document's servers are read (F-C09-9); the
+    decoded `url.Path` is matched without servers, the escaped `url.String()` with servers (`legacyFindW`) -/
 theorem router_facts_legacy :
     routerFact "legacy.newRouter.ranges" = some "doc.Paths.Map() | pathItem.Operations()" ∧
     routerFact "legacy.newRouter.routeFields" = some "Spec,Path,PathItem,Method,Operation" ∧
     routerFact "legacy.findRoute.setsRouteServer" = some "false" ∧
     routerFact "legacy.findRoute.serversFrom" = some "doc.Servers" ∧
+    routerFact "legacy.findRoute.remainingPath" = some "remainingPath = url.Path | server, paramValues, remainingPath = servers.MatchURL(url)" ∧
+    routerFact "servers.matchURL.input" = some "rawURL := parsedURL.String()" ∧
     routerFact "errors.ErrPathNotFound" = some "&RouteError{\"no matching operation was found\"}" ∧
     routerFact "errors.ErrMethodNotAllowed" = some "&RouteError{\"method not allowed\"}" := by decide +kernel
+
+/-- percent-encoding: when nothing in the path is encoded, the wire-level routers are the routers of the theorems below on
+    the one path string; otherwise gorillamux is that router on the escaped path and the legacy router on the decoded path
+    (no servers) or the escaped URL (servers) -/
+theorem wire_readings (d : Doc) (w : Wire) :
+    gorillaFindW d w = gorillaFind d w.raw ∧
+    legacyFindW d w = legacyFind d (if d.servers = [] then w.req else w.raw) ∧
+    (w.epath = w.req.path → w.raw = w.req ∧ gorillaFindW d w = gorillaFind d w.req ∧ legacyFindW d w = legacyFind d w.req ∧
+      ∀ o, specAcceptsW d w o = specAccepts d w.req o) := by
+  refine ⟨rfl, rfl, ?_⟩
+  intro h
+  have e : w.raw = w.req := by
+    unfold Wire.raw
+    rw [h]
+  refine ⟨e, by unfold gorillaFindW; rw [e], by unfold legacyFindW; rw [e]; simp, ?_⟩
+  intro o
+  unfold specAcceptsW
+  rw [e, Bool.or_self]
 
 /-! ## legacy router -/
 
